@@ -15,8 +15,10 @@ pub const U_KEY_START: u32 = 1 << 3;
 pub const U_DUP_EMPTY: u32 = 1 << 4;
 pub const U_TYPE_START: u32 = 1 << 5;
 pub const U_TRAILING_SLASH_NAME: u32 = 1 << 6;
+pub const U_EMPTY_VERSION: u32 = 1 << 7;
+pub const U_EMPTY_SUBPATH: u32 = 1 << 8;
 
-pub const UNJUDGED_NAMES: [&str; 7] = [
+pub const UNJUDGED_NAMES: [&str; 9] = [
     "scheme-case-variant",
     "encoded-dot-segment",
     "empty-qualifier-item",
@@ -24,6 +26,8 @@ pub const UNJUDGED_NAMES: [&str; 7] = [
     "duplicate-key-with-empty-value",
     "type-starts-with-non-letter",
     "empty-name-after-nonempty-path",
+    "version-separator-without-version",
+    "subpath-separator-without-segments",
 ];
 
 #[derive(Clone, Copy, Debug, PartialEq, Eq)]
@@ -338,6 +342,11 @@ pub fn rparse_opt(s: &str, mode: Mode, post: bool) -> RRes {
         }
     }
 
+    if subpath_raw.is_some() && t.subpath.is_empty() && r.defects == 0 {
+        // `#` followed by nothing but skipped pieces: not a spelling of any tuple of the property
+        r.unjudged |= U_EMPTY_SUBPATH;
+    }
+
     // qualifiers
     if let Some(q) = quals_raw {
         // key (lower) -> number of non-empty values seen, number of occurrences
@@ -416,7 +425,14 @@ pub fn rparse_opt(s: &str, mode: Mode, post: bool) -> RRes {
     if let Some(v) = version_raw {
         match pct_decode(v) {
             None => r.defects |= ErrClass::Escape.bit(),
-            Some(d) => t.version = if d.is_empty() { None } else { Some(d) },
+            Some(d) => {
+                if d.is_empty() {
+                    // `n@`: the property's tuples have no empty version and its spelling freedoms do not
+                    // list a dangling '@'
+                    r.unjudged |= U_EMPTY_VERSION;
+                }
+                t.version = if d.is_empty() { None } else { Some(d) }
+            },
         }
     }
     let (ns_raw, name_raw) = match rfind_byte(rest3, b'/') {
